@@ -1243,6 +1243,11 @@ class World:
             pres_ctime, entry_ctime = ctimes[(srv, app)]
             if pres_ctime is None:
                 continue          # server not present
+            if not (self._zk_obj(z.path.server(srv)) or {}).get('parent'):
+                # the server's definition is gone (or never completed): it
+                # is not a server of the cell any more, whatever is still
+                # recorded under its name
+                continue
             if pres_ctime > entry_ctime:
                 continue          # server restarted since the placement
             oldapp = old.cell.apps.get(app)
